@@ -63,6 +63,8 @@ def tasks(tier):
     ts = [("ff", e, k) for e, k in FLAVOURS]
     ts += [("ff-two-domains",)]
     ts += [("inserter", name) for name in INSERTER_CASES]
+    # memory ports are clocked by their own domain only (the two-domain configurations of C11, same obligations)
+    ts += [("memory-two-domains", 12), ("memory-two-domains", 13)]
     return ts
 
 
@@ -375,6 +377,11 @@ def run_task(task):
         return check_two_domains()
     if k == "inserter":
         return check_inserter(task[1])
+    if k == "memory-two-domains":
+        from . import c11
+        cfg = c11.configs("thorough")[task[1]]
+        assert len({d for d, _ in cfg[3]} | {d for d, _ in cfg[4] if d != "comb"}) >= 2
+        return c11.check_config(cfg, f"memory-two-domains[{task[1]}]")
     if k == "canary-ff":
         return check_ff("pos", "sync", break_spec=True)
     if k == "canary-enable":
